@@ -22,11 +22,12 @@ def meta(pid):
           pass
   return out
 
+READY = set(json.load(open(os.path.join(HERE, 'ready.json'))))
 checks = []; na = []
 for p in props:
   pid = p['id']
   m = meta(pid)
-  if m is None or pid in NA_REASONS:
+  if m is None or pid in NA_REASONS or pid not in READY:
     na.append({'property_id': pid, 'reason': NA_REASONS.get(pid, 'check not built yet in this round (planned; see DESIGN.md section 4)')})
     continue
   checks.append({
